@@ -34,6 +34,11 @@ type wcase struct {
 	parts      [][]itx.Rec
 	perm       []int
 	compressed bool
+	// notOwner: the writer is told not to close the output (OptionDontCloseFile, what the library uses for a
+	// stream it was lent): it still has to flush what it buffered, and to report a flush that fails. JSON and CSV
+	// writers only: WriteFasta / WriteFastq never flush in that mode (pinned behaviour; every entry point of the
+	// library and every command gives them OptionCloseFile)
+	notOwner bool
 }
 
 // mkCase derives the writer case idx of a sub-check (same in the parent and in the fault helper).
@@ -68,7 +73,7 @@ func mkCase(seed int64, sub string, idx int) wcase {
 			perm[i] = i
 		}
 	}
-	return wcase{sizes, itx.Partition(recs, sizes), perm, idx%5 == 4}
+	return wcase{sizes, itx.Partition(recs, sizes), perm, idx%5 == 4, idx%4 == 1 && (sub == "inproc-json" || sub == "inproc-csv")}
 }
 
 // faultMain is the helper process: `vh c18fault <kind> <seed> <sub> <idx> <fault> <k>`.
@@ -102,7 +107,7 @@ func faultMain(args []string) int {
 		sink.FailClose = true
 	}
 	bios := wrx.Bios(wc.parts, kind == "fastq")
-	if err := wrx.Run(kind, bios, wc.perm, sink, 1, wc.compressed, true); err != nil {
+	if err := wrx.Run(kind, bios, wc.perm, sink, 1, wc.compressed, !wc.notOwner); err != nil {
 		fmt.Fprintln(os.Stderr, "VH-ERROR", err)
 		return 3
 	}
@@ -141,7 +146,7 @@ func runInproc(c *core.Ctx, kind string) {
 		return
 	}
 	det := func(extra map[string]any) map[string]any {
-		m := map[string]any{"writer": kind, "sizes": wc.sizes, "arrival": wc.perm, "compressed": wc.compressed, "output_bytes": total}
+		m := map[string]any{"writer": kind, "sizes": wc.sizes, "arrival": wc.perm, "compressed": wc.compressed, "output_bytes": total, "writer_told_not_to_close": wc.notOwner}
 		for k, v := range extra {
 			m[k] = v
 		}
@@ -172,8 +177,11 @@ func runInproc(c *core.Ctx, kind string) {
 			return true
 		}
 		if refused {
-			c.Key("%s/%s/%s/%v/%s", kind, fault, sizeClass(total), wc.compressed, where())
+			c.Key("%s/%s/%s/%v/%s/%v", kind, fault, sizeClass(total), wc.compressed, where(), wc.notOwner)
 			c.Count("refusals_delivered", 1)
+			if wc.notOwner {
+				c.Count("refusals_delivered_to_a_writer_not_owning_its_output", 1)
+			}
 		}
 		switch {
 		case refused && exit == 0:
